@@ -6,6 +6,7 @@ mod gen;
 mod hist;
 mod model;
 mod real;
+mod rel;
 mod report;
 
 use std::time::Instant;
@@ -75,7 +76,9 @@ fn replay_case(property: &str, case: &Value, rep: &mut Report) -> Result<(), Str
     match kind {
         "history" => {
             let hc = HistoryCase::from_json(case).ok_or("cannot decode history case")?;
-            if let Some((oracle, _)) = hist_oracle(property) {
+            if ["C05", "C06", "C10", "C11"].contains(&property) {
+                rel::replay(property, case, rep)
+            } else if let Some((oracle, _)) = hist_oracle(property) {
                 hist::run_case(&hc, oracle, rep);
                 Ok(())
             } else {
@@ -178,6 +181,10 @@ fn main() {
         let a: Vec<String> = std::env::args().skip(2).collect();
         let code = bytes::c07_shard_main(a[0].parse().unwrap(), a[1].parse().unwrap(), a[2].parse().unwrap(), &a[3], a[2] == "1");
         std::process::exit(code);
+    }
+    if std::env::args().nth(1).as_deref() == Some("c05-child") {
+        let a: Vec<String> = std::env::args().skip(2).collect();
+        std::process::exit(rel::c05_child_main(a[0].parse().unwrap(), a[1].parse().unwrap(), a[2].parse().unwrap()));
     }
     let args = parse_args();
     let started = Instant::now();
@@ -283,6 +290,21 @@ fn main() {
                 1000,
                 json!({}),
             )
+        } else if ["C05", "C06", "C10", "C11"].contains(&property.as_str()) {
+            let th = args.tier == "thorough";
+            let (r, rule) = match property.as_str() {
+                "C05" => rel::run_c05(th, args.seed, SHARDS),
+                "C06" => rel::run_c06(th, args.seed, SHARDS),
+                "C10" => rel::run_c10(th, args.seed, SHARDS),
+                _ => rel::run_c11(th, args.seed, SHARDS),
+            };
+            let assumptions: Vec<String> = match property.as_str() {
+                "C05" => vec!["std's RandomState gives every HashMap instance a different key (per-thread counter), so in-process repetitions range over iteration orders; the canary counters show whether they did".into()],
+                "C06" => vec!["identifiers, struct names and field order are not compared between orders of supply (which of two colliding names gets a suffix legitimately follows supply order)".into()],
+                "C10" => vec!["private-use code points never occur in identifiers, so the sentinel rendering shows every attribute binding".into()],
+                _ => vec!["whitespace-only text is only rewritten to other whitespace-only text (whether it counts as character data is C03's business)".into()],
+            };
+            (r, rule, false, assumptions, if property == "C05" { 200 } else { 1000 }, json!({}))
         } else if property == "C15" {
             let (r, rule) = api::run_c15(args.tier == "thorough", args.seed, SHARDS);
             (
